@@ -340,3 +340,92 @@ Proof.
   unfold spec_lex in H. destruct (crlf_only src); [|discriminate].
   destruct (spec_lex_fuel_toks _ _ _ _ _ _ H) as (ts' & -> & Hts). cbn [rev app]. apply (spec_toks_kw 0 0 src ts' Hts).
 Qed.
+
+(* ---------- the written text of a source of the dialect keeps the line-end discipline (no lone CR) *)
+Lemma crlf_only_app_intro a : forall b, crlf_only a = true -> last a 0 <> 13 -> crlf_only b = true -> crlf_only (a ++ b) = true.
+Proof.
+  induction a as [|x a IH]; intros b Ha Hl Hb; [exact Hb|]. cbn [app crlf_only] in *.
+  apply andb_true_iff in Ha. destruct Ha as [H1 H2]. apply andb_true_iff. split.
+  - destruct (x =? 13) eqn:E; [|reflexivity]. destruct a as [|y a]; [apply Z.eqb_eq in E; cbn in Hl; congruence|]. exact H1.
+  - destruct a as [|y a]; [exact Hb|]. apply IH; [exact H2 | exact Hl | exact Hb].
+Qed.
+
+Lemma no_cr_crlf l : ~ In 13 l -> crlf_only l = true /\ last l 0 <> 13.
+Proof.
+  induction l as [|x l IH]; intros H; [split; [reflexivity | cbn; lia]|].
+  assert (Hx : x <> 13) by (intros ->; apply H; left; reflexivity).
+  destruct (IH (fun Hin => H (or_intror Hin))) as [I1 I2]. split.
+  - cbn [crlf_only]. assert (E : (x =? 13) = false) by lia. rewrite E, I1. reflexivity.
+  - destruct l as [|y l]; [cbn; exact Hx | exact I2].
+Qed.
+
+Lemma rev_escapes_no_cr_sweep :
+  forallb (fun kv => negb (existsb (Z.eqb 13) (snd kv))) string_reverse_escapes = true
+  /\ (match lookup_bytes string_reverse_escapes [13] with Some _ => true | None => false end) = true.
+Proof. vm_compute. split; reflexivity. Qed.
+
+Lemma lookup_in m : forall k v, lookup_bytes m k = Some v -> In (k, v) m \/ exists k', In (k', v) m.
+Proof.
+  induction m as [|[k0 v0] m IH]; intros k v H; [discriminate|]. cbn [lookup_bytes] in H.
+  destruct (zlist_eqb k0 k); [inversion H; subst; right; exists k0; left; reflexivity|].
+  destruct (IH k v H) as [Hin|[k' Hin]]; [left; right; exact Hin | right; exists k'; right; exact Hin].
+Qed.
+
+Lemma escape_bytes_no_cr q v : q <> 13 -> ~ In 13 (escape_bytes [q] v).
+Proof.
+  intros Hq. induction v as [|c r IH]; [intros []|]. cbn [escape_bytes].
+  destruct rev_escapes_no_cr_sweep as [Sw S13].
+  destruct (lookup_bytes string_reverse_escapes [c]) as [e|] eqn:L.
+  - assert (He : ~ In 13 e).
+    { rewrite forallb_forall in Sw. destruct (lookup_in _ _ _ L) as [Hin|[k' Hin]]; specialize (Sw _ Hin); cbn [snd] in Sw;
+        intros H13; assert (X : existsb (Z.eqb 13) e = true) by (apply existsb_exists; exists 13; split; [exact H13 | reflexivity]);
+        rewrite X in Sw; discriminate. }
+    intros [H|H]; [discriminate|]. apply in_app_or in H. destruct H as [H|H]; [|exact (IH H)].
+    destruct (all_digits e && match r with d :: _ => m_digit d | [] => false end); [|exact (He H)].
+    unfold rjust3 in H. apply in_app_or in H. destruct H as [H|H]; [apply repeat_spec in H; discriminate | exact (He H)].
+  - assert (Nc : c <> 13) by (intros ->; rewrite L in S13; discriminate).
+    destruct (zlist_eqb [c] [q]).
+    + intros [H|[H|H]]; [discriminate | congruence | exact (IH H)].
+    + intros [H|H]; [congruence | exact (IH H)].
+Qed.
+
+Lemma spec_toks_raw_ok l c s ts : spec_toks l c s ts -> Forall byte s -> crlf_only s = true ->
+  Forall (fun t => crlf_only (s_raw t) = true /\ last (s_raw t) 0 <> 13) ts.
+Proof.
+  induction 1 as [l c | l c s t rest l' c' ts Es Hne Ha Hts IH]; intros HB Hcr; [constructor|].
+  destruct (step_agrees s t rest l c HB Hcr Es Hne) as (tk & St & Hext & _ & Hlast).
+  destruct St as [Hsplit _ _ _ _]. rewrite Hext in Hsplit. constructor.
+  - cbn [at_pos s_raw]. split; [|exact Hlast]. apply (crlf_only_prefix _ rest); [rewrite <- Hsplit; exact Hcr | exact Hlast].
+  - apply IH; [apply (Forall_app_r' _ (s_raw t)); rewrite <- Hsplit; exact HB
+              | apply (crlf_only_app (s_raw t)); rewrite <- Hsplit; exact Hcr].
+Qed.
+
+Lemma crlf_only_concat l : Forall (fun x => crlf_only x = true /\ last x 0 <> 13) l -> crlf_only (concat l) = true.
+Proof.
+  induction 1 as [|x l [H1 H2] _ IH]; [reflexivity|]. cbn [concat]. apply crlf_only_app_intro; assumption.
+Qed.
+
+Theorem echo_crlf_only src ss : Forall byte src -> spec_lex src = Some ss ->
+  exists lines, echo_source [src] = Ok lines /\ crlf_only (concat lines) = true.
+Proof.
+  intros HB H. destruct (lex_agrees_code src ss HB H) as (ts & Hm & Hcodes & _).
+  exists (echo ts). unfold echo_source. rewrite Hm. split; [reflexivity|]. rewrite echo_concat.
+  replace (map tok_code ts) with (map spec_code ss).
+  2: { apply (f_equal (map snd)) in Hcodes. rewrite !map_map in Hcodes. cbn [snd] in Hcodes. symmetry. exact Hcodes. }
+  apply crlf_only_concat.
+  pose proof (spec_lex_qs src ss HB H) as Hq.
+  assert (Hraw : Forall (fun t => crlf_only (s_raw t) = true /\ last (s_raw t) 0 <> 13) ss).
+  { unfold spec_lex in H. destruct (crlf_only src) eqn:Hcr; [|discriminate].
+    destruct (spec_lex_fuel_toks _ _ _ _ _ _ H) as (ts0 & -> & Hts). cbn [rev app]. apply (spec_toks_raw_ok 0 0 src ts0 Hts HB Hcr). }
+  clear -Hq Hraw. induction ss as [|s ss IH]; [constructor|].
+  inversion Hq as [|? ? Q1 Q2]; subst. inversion Hraw as [|? ? R1 R2]; subst. cbn [map]. constructor; [|apply IH; assumption].
+  destruct (is_quoted s) eqn:Q.
+  - destruct (Q1 Q) as (q & Hq34 & Hfirst & _). unfold spec_code. unfold is_quoted in Q. destruct (s_kind s); try discriminate.
+    rewrite Q, Hfirst. unfold reencode. apply no_cr_crlf. intros Hin. apply in_app_or in Hin.
+    assert (Nq : q <> 13) by (destruct Hq34; subst; lia).
+    destruct Hin as [[E|[]]|Hin]; [congruence|]. apply in_app_or in Hin. destruct Hin as [Hin|[E|[]]]; [|congruence].
+    exact (escape_bytes_no_cr q _ Nq Hin).
+  - assert (E : spec_code s = s_raw s).
+    { unfold spec_code. unfold is_quoted in Q. destruct (s_kind s); try reflexivity. rewrite Q. reflexivity. }
+    rewrite E. exact R1.
+Qed.
